@@ -88,6 +88,7 @@ type Contract struct {
 	Loops     map[int]*LoopSpec
 	Ghosts    []*GhostAssign // ghost updates executed at every return
 	Callsites map[string][]*Clause // callee key -> assertions checked at each call to it
+	AtReturn  []*Clause            // assertions over locals checked at every return
 	Trusted   bool
 	Inline    bool // force inlining at call sites (no modular use)
 	NoPanic   bool
@@ -510,6 +511,15 @@ func (db *SpecDB) loadFile(path, pkgShort string, slashAt bool) error {
 				}
 				curLoop.Invariants = append(curLoop.Invariants, cl)
 			}
+		case "atreturn":
+			cl, err := parseClause(rest, pos)
+			if err != nil {
+				return err
+			}
+			if len(cl.Props) == 0 {
+				cl.Props = cur.Props
+			}
+			cur.AtReturn = append(cur.AtReturn, cl)
 		case "callsite":
 			// callsite <calleeKey> [label] {props} expr
 			ck, r2 := splitWord(rest)
